@@ -5,7 +5,8 @@ none does (missed_by).  Usage: seedscan.py [id ...]"""
 import json, os, re, subprocess, sys, tempfile, shutil
 
 V = "/verif"
-EXTRA = {"C08-2": ["C11"], "C22-1": ["C14", "C06"], "C13-1": ["C12"], "C13-2": ["C12"]}
+EXTRA = {"C08-2": ["C11"], "C22-1": ["C14", "C06"], "C13-1": ["C12"], "C13-2": ["C12"],
+         "C06-r5-1": ["C26"], "C06-r5-2": ["C13"], "C10-r5-2": ["C09"], "C13-r5-2": ["C22", "C09"], "C14-r5-1": ["C22"]}
 
 def sh(cmd, cwd="/", env=None, timeout=3000):
     p = subprocess.run(cmd, shell=True, cwd=cwd, env=env, stdout=subprocess.PIPE, stderr=subprocess.STDOUT, text=True, timeout=timeout)
